@@ -212,17 +212,23 @@ impl CharProperty {
     where
         S: AsRef<str>,
     {
+        let undefined = |target: &str| {
+            let msg = format!("Undefined category: {target}");
+            VibratoError::invalid_format("char.def", msg)
+        };
+        let base_target = targets.first().ok_or_else(|| {
+            VibratoError::invalid_format("char.def", "A character range must have a category.")
+        })?;
         let mut base_cinfo = *cate_map
-            .get(targets[0].as_ref())
+            .get(base_target.as_ref())
             .and_then(|base_target_id| cate2info.get(base_target_id))
-            .ok_or_else(|| {
-                let msg = format!("Undefined category: {}", targets[0].as_ref());
-                VibratoError::invalid_format("char.def", msg)
-            })?;
+            .ok_or_else(|| undefined(base_target.as_ref()))?;
         let mut cate_idset = base_cinfo.cate_idset();
         for target in targets {
-            let target_id = cate_map.get(target.as_ref()).unwrap();
-            let cinfo = cate2info.get(target_id).unwrap();
+            let cinfo = cate_map
+                .get(target.as_ref())
+                .and_then(|target_id| cate2info.get(target_id))
+                .ok_or_else(|| undefined(target.as_ref()))?;
             cate_idset |= 1 << cinfo.base_id();
         }
         base_cinfo.reset_cate_idset(cate_idset);
